@@ -33,6 +33,7 @@ func checkC20(w *World, r *Report) {
 	r.Explanation = "Decides that the attribute cache and its eviction are unobservable, for every history of lookups: (R20.1) the cache key literal sets all fields (dynamic type and attribute name) and is used as the map key itself; (R20.2) a field found by FieldByName is reached through its whole index path, never through Index[0]; (R20.3) every lookup field stored in a cache entry is computed only from the key's type and name through side-effect-free reflect.Type methods — not from the object value, other entries or time; (R20.4) every other write to the cache map is a delete or a statistics-only update of the entry read under the same key; (R20.5) the key's type comes from the same reflect.Value that serves the access. Together: a hit returns what a miss would compute. Not decided: that reflect's FieldByName/MethodByName implement 'exported field incl. promoted / zero-argument method' (trusted stdlib); getItem's key conversions."
 	r.Explanation += " Rules added in later rounds: (R20.7) resolved lookups are held, by package-level variables and stateful types, only as values of map[attributeCacheKey]. (R20.4) a statistics update needs a hit."
 	r.Explanation += " Round 9: (R20.8) the resolver of x.name reaches reflect.Value.MapIndex: attribute access on maps of any type is a key lookup."
+	r.Explanation += " Round 10: (R20.9) map keys do not come from conversions whose failure is ignored."
 	r.RuleText = "obligation = one key literal / StructField.Index use / store into an entry field / write to the cache map; non-trivial = all but constant stores"
 	r.Trusted = []string{"reflect.Type methods are pure functions of the type", "reflect.Value.FieldByIndex follows the whole path"}
 
